@@ -90,6 +90,11 @@ CFG = {
         "Swat4.C17.facts_json_ok",
         "Swat4.C17.facts_enum_ok",
         "Swat4.C17.slug_facts_ok",
+        "Swat4.C17.addExecute_abstracts",
+        "Swat4.C17.addServer_no_5xx",
+        "Swat4.C17.addServer_5xx_reachable",
+        "Swat4.C17.viewExecute_abstracts",
+        "Swat4.C17.listExecute_abstracts",
     ],
     "shards": (1, 4),
     "nontrivial": _c17_nontrivial,
